@@ -11,6 +11,8 @@ import (
 	"sync"
 	"time"
 
+	"github.com/cnotch/ipchub/av/format/flv"
+	"github.com/cnotch/ipchub/av/format/mpegts"
 	"github.com/cnotch/ipchub/av/format/rtp"
 	"github.com/cnotch/ipchub/media"
 	"verif/harness/lib/rtppack"
@@ -438,4 +440,78 @@ func WaitFor(bound time.Duration, cond func() bool) bool {
 		time.Sleep(200 * time.Microsecond)
 	}
 	return true
+}
+
+// ---------------------------------------------------------------- converters
+
+// Converters follows a stream's RTP demuxer and FLV / TS muxer goroutines
+// through their schedule points, so that "the converters have worked off
+// everything that was published" is a state and not a sleep: the demuxer is done
+// with n packets when it has come back to its queue n+1 times; a muxer is done
+// when it has come back to its queue once more than frames were queued for it
+// (the number of frames is final once the demuxer is done). The callbacks are
+// installed BEFORE the stream is created (its goroutines reach their queues for
+// the first time inside NewStream) and count per object; Bind then picks the
+// stream's own converters.
+type Converters struct {
+	demux, flvmux, tsmux interface{}
+
+	mu     sync.Mutex
+	seen   map[interface{}]int // arrivals at "*.before-pop"
+	pushed map[interface{}]int // "*.pushed"
+}
+
+// WatchConverters installs the schedule-point callbacks of the rtp, flv and
+// mpegts packages (process-wide: one watcher at a time). Call it before
+// media.NewStream, then Bind.
+func WatchConverters() *Converters {
+	c := &Converters{seen: map[interface{}]int{}, pushed: map[interface{}]int{}}
+	cb := func(name string, obj interface{}) {
+		c.mu.Lock()
+		switch name {
+		case "demux.before-pop", "flvmux.before-pop", "tsmux.before-pop":
+			c.seen[obj]++
+		case "flvmux.pushed", "tsmux.pushed":
+			c.pushed[obj]++
+		}
+		c.mu.Unlock()
+	}
+	rtp.VerifSetSched(cb)
+	flv.VerifSetSched(cb)
+	mpegts.VerifSetSched(cb)
+	return c
+}
+
+// Bind selects the converters of s.
+func (c *Converters) Bind(s *media.Stream) {
+	c.mu.Lock()
+	c.demux, c.flvmux, c.tsmux = media.VerifConverters(s)
+	c.mu.Unlock()
+}
+
+// Stop removes the callbacks.
+func (c *Converters) Stop() {
+	rtp.VerifSetSched(nil)
+	flv.VerifSetSched(nil)
+	mpegts.VerifSetSched(nil)
+}
+
+// WaitDone waits until the demuxer has worked off the given number of published
+// packets and the muxers every frame that came out of them; false on timeout.
+func (c *Converters) WaitDone(published int, bound time.Duration) bool {
+	if !WaitFor(bound, func() bool { c.mu.Lock(); defer c.mu.Unlock(); return c.seen[c.demux] >= published+1 }) {
+		return false
+	}
+	return WaitFor(bound, func() bool {
+		c.mu.Lock()
+		defer c.mu.Unlock()
+		return (c.flvmux == nil || c.seen[c.flvmux] >= c.pushed[c.flvmux]+1) && (c.tsmux == nil || c.seen[c.tsmux] >= c.pushed[c.tsmux]+1)
+	})
+}
+
+// Describe renders the counters (diagnostics).
+func (c *Converters) Describe() string {
+	c.mu.Lock()
+	defer c.mu.Unlock()
+	return fmt.Sprintf("demuxer came back to its queue %d times; flv muxer: %d frames queued, back at its queue %d times; ts muxer: %d queued, %d times", c.seen[c.demux], c.pushed[c.flvmux], c.seen[c.flvmux], c.pushed[c.tsmux], c.seen[c.tsmux])
 }
